@@ -254,6 +254,30 @@ fn value_siblings(v: &A1) -> Vec<A1> {
     out
 }
 
+/// Light judge for the 2^32-sized thorough sweeps: format, decode independently, parse back
+/// through the text entry point; everything else is left to the other streams.
+fn judge_value_light(v: &A1, rec: &mut Recorder) {
+    let r = guard(|| {
+        let s = to_ppp(v).to_string();
+        let back = match v1::Header::try_from(s.as_str()) {
+            Ok(h) => Some(a1(&h.addresses)),
+            Err(_) => None,
+        };
+        (s, back)
+    });
+    rec.events(2);
+    match r {
+        Ok((s, back)) => {
+            let fine = s.len() <= 107 && back.as_ref() == Some(v) && matches!(v1_ref(s.as_bytes()), V1Ref::Accept(ref acc) if acc.header_len == s.len() && a1_of_accept(acc) == *v);
+            if !fine {
+                // the full judge names the rule
+                judge_value(v, rec);
+            }
+        }
+        Err(_) => judge_value(v, rec),
+    }
+}
+
 fn judge_value_with_history(v: &A1, idx: u64, rec: &mut Recorder) {
     judge_value(v, rec);
     if !spec::engine::small() && spec::engine::with_history(idx, 4) {
@@ -309,6 +333,11 @@ impl Monitor for C08 {
             stream("c08-v6", tier.n(50, 1_000_000, 25_000_000)),
             if tier == Tier::Miri { stream("c08-sweep-s", 100) } else { exhaustive("c08-sweep", SWEEP_PORTS + SWEEP_OCTETS + SWEEP_GROUPS) },
             stream("v1-valid", tier.n(50, 200_000, 20_000_000)),
+            // thorough only: ALL 2^16 x 2^16 port pairs (the other fields change once per block of 2^16)
+            if tier == Tier::Thorough { exhaustive("c08-all-port-pairs", 1u64 << 32) } else { stream("c08-port-pairs-s", tier.n(10, 200_000, 0)) },
+            // IPv4 addresses: a 2^28 sample of all source / destination values in thorough
+            stream("c08-v4-sources-s", tier.n(10, 200_000, 1 << 28)),
+            stream("c08-v4-destinations-s", tier.n(10, 200_000, 1 << 28)),
             stream("v1-mut", tier.n(50, 100_000, 10_000_000)),
             stream("v1-eol", tier.n(20, 50_000, 5_000_000)),
         ]
@@ -341,6 +370,33 @@ impl Monitor for C08 {
                 let (a, b) = rand_v6_pair(rng);
                 let (sp, dp) = rand_port_pair(rng);
                 judge_value_with_history(&A1::Tcp6 { src: bytes_of(a), dst: bytes_of(b), sp, dp }, idx, rec);
+            }
+            "c08-all-port-pairs" | "c08-all-v4-sources" | "c08-all-v4-destinations" | "c08-port-pairs-s" | "c08-v4-sources-s" | "c08-v4-destinations-s" => {
+                // thorough: idx enumerates the 2^32 values; quick: a random sample of them
+                let x = if stream.starts_with("c08-all-") { idx as u32 } else { rng.next() as u32 };
+                let hi = (x >> 16) as u16;
+                let blk = x >> 16; // other fields change once per block of 65536 cases
+                let other = |k: u32| -> [u8; 4] { (0x0A00_0000u32 | (blk.wrapping_mul(2654435761).wrapping_add(k) & 0x00FF_FFFF)).to_be_bytes() };
+                let v = match stream {
+                    "c08-all-port-pairs" | "c08-port-pairs-s" => {
+                        if blk % 2 == 0 {
+                            A1::Tcp4 { src: other(1), dst: other(2), sp: hi, dp: x as u16 }
+                        } else {
+                            let mut a = [0u8; 16];
+                            let mut b = [0u8; 16];
+                            a[..4].copy_from_slice(&[0x20, 0x01, 0x0d, 0xb8]);
+                            b[..4].copy_from_slice(&[0xfd, 0x00, 0x00, 0x01]);
+                            a[12..].copy_from_slice(&other(3));
+                            b[12..].copy_from_slice(&other(4));
+                            A1::Tcp6 { src: a, dst: b, sp: hi, dp: x as u16 }
+                        }
+                    }
+                    "c08-all-v4-sources" | "c08-v4-sources-s" => A1::Tcp4 { src: x.to_be_bytes(), dst: other(5), sp: (blk as u16) | 1, dp: 443 },
+                    _ => A1::Tcp4 { src: other(6), dst: x.to_be_bytes(), sp: 80, dp: (blk as u16) ^ 0x5555 },
+                };
+                rec.case(x as u64 | (stream.len() as u64) << 40, true);
+                rec.class("oracle:value-in-a-2^32-sweep", || a1_text(&v));
+                judge_value_light(&v, rec);
             }
             "c08-sweep" | "c08-sweep-s" => {
                 // every port value in each position, every octet value in each position, every
